@@ -2,11 +2,11 @@ SPECIFICATION Spec
 CONSTANTS
   Devs <- DevBoth
   Ops <- OpsContent
-  ByteStrings <- BytesThorough
+  ByteStrings <- BytesQuick
   NumSeqs <- NumsQuick
   NewObjs <- MCNewObjs
-  MaxDepth = 5
-  Starts <- StartsContent
+  MaxDepth = 4
+  Starts <- StartsContent2
   Allowed = {"delete.array.dup", "delete.streamdict", "delete.trailer", "resources.shadow", "contents.refToArray"}
   Emit = TRUE
   EmitMod = 2000
